@@ -12,3 +12,9 @@ want=[json.loads(l)['id'] for l in open('/verif/properties.jsonl')]
 assert sorted(ids)==sorted(want), (ids,want)
 print('manifest+evidence valid;',len(m['checks']),'checks,',len(m.get('not_applicable',[])),'not applicable')
 PY
+# MANIFEST.json must be what the analyser generates now (it is printed on stdout: redirect it into the file)
+if [ -x /verif/bin/jpverif ]; then
+  if ! /verif/bin/jpverif manifest 2>/dev/null | cmp -s - /verif/MANIFEST.json; then
+    echo "MANIFEST.json is stale: run ./bin/jpverif manifest > MANIFEST.json"; exit 1
+  fi
+fi
